@@ -21,6 +21,7 @@ RULE = ("multi-season runs (2-4 seasons, off-season not simulated) over every ir
         "the same inputs started on that season's planting date; non-trivial = a compared season "
         "with >= 30 in-season days; distinct = (spec digest, k)")
 ASSUMPTIONS = [
+    "inputs whose meaning depends on the start date are given explicitly (constant water table, or one that stands at the same depth on every planting date; an explicit CO2 level instead of 'the first simulated year's'; an explicit latest harvest date for thermal crops)",
     "bit-identity is judged on one machine in one environment (IEEE-754 determinism of numpy/pandas)",
     "SwitchGDD=0; thermal crops get an explicit latest harvest date: when it is left unset the model derives ONE date from the first simulated season (days to maturity + 30), so a multi-season run and a run started at season k are then given different latest harvest dates by definition (with warm and cool years a later season is cut at 143 days in one and runs 146+ in the other) - an input definition, not a state leak",
     "synthetic weather is a pure function of (seed, date); water-table observations use the 'Constant' method so that dates before the partner's start are legal",
@@ -45,7 +46,7 @@ def cases(tier, seed):
         m = i % 6
         kw = dict(methods=(m,), seasons=(2, 4) if tier == "thorough" else (2, 3), off_season=False,
                   p_gw=0.25, p_custom=0.25, p_bunds=0.3, p_file=0.2, crops=(thermal_pool if i % 5 == 4 else None), end_shape=gen.pick(rng, ["after", "mid", "anniv"]),
-                  p_co2=0.6, pre=(0, 0, 7, 2, 25))
+                  p_co2=0.6, pre=(0, 0, 7, 2, 25, 200, 330))
         if m == 4:
             kw.update(dry=True)
         if m == 1:
@@ -63,11 +64,38 @@ def cases(tier, seed):
                 nl = S.n_layers(sp)
                 sp["iwc"] = {"wc_type": "Pct", "method": "Layer", "depth_layer": list(range(1, nl + 1)),
                              "value": [float(gen.pick(rng, [35, 50, 65]))] * nl}
-        if sp.get("gw"):
+        if sp.get("gw") and i % 3 == 1:
+            # a table that moves through the year but stands at the same depth on every planting
+            # date (and the run starts on one): the configured initial content is then the same for
+            # every season, while the table of the *end* of a season is not
+            p0 = gen.first_planting(sp)
+            sp["start"] = gen.fmt(p0)
+            v0 = float(sp["gw"]["values"][0])
+            v1 = round(max(0.3, v0 + float(gen.pick(rng, [-0.9, -0.5, 0.6]))), 2)
+            ny = S.d(sp["end"]).year - p0.year + 2
+            dates, vals = [], []
+            for k in range(ny):
+                a = gen.add_years(p0, k)
+                dates += [gen.fmt(a), gen.fmt(a + dt.timedelta(days=int(gen.pick(rng, [120, 180, 240]))))]
+                vals += [v0, v1]
+            sp["gw"] = {"method": gen.pick(rng, ["Variable", "Variable", "Constant"]), "dates": dates, "values": vals}
+            if sp["gw"]["method"] == "Constant":
+                # step-wise: back at the planting-date depth the day before the next planting date
+                dates2, vals2 = [], []
+                for k in range(ny):
+                    a = gen.add_years(p0, k)
+                    dates2 += [gen.fmt(a), gen.fmt(a + dt.timedelta(days=150))]
+                    vals2 += [v0, v1]
+                sp["gw"].update(dates=dates2, values=vals2)
+        elif sp.get("gw"):
             # a table that is constant in time: with a time-varying table the configured initial
             # content (FC adjusted for the table, saturation below it) legitimately depends on the
             # date a run starts
             sp["gw"] = {"method": "Constant", "dates": [sp["gw"]["dates"][0]], "values": [sp["gw"]["values"][0]]}
+        if (sp.get("co2") or {}).get("constant_auto"):
+            # "constant at the level of the first simulated year" means something else for a run
+            # that starts in a later year: give the level explicitly (same inputs for both runs)
+            sp["co2"] = {"constant": float(gen.pick(rng, [340.0, 369.41, 420.0]))}
         cat = common.crop_catalogue()[sp["crop"]["name"]]
         if cat["CalendarType"] == 2 and sp["weather"]["kind"] == "synth" and i % 3 != 2:
             # warm and cool years: the thermal calendar of a later season differs from the first one's
